@@ -106,6 +106,13 @@ func tryReplay(p *Prog, o *Obligation, dir string) *ReplayResult {
 			return &ReplayResult{Note: "no replay harness for methods of stateful receivers (keepers, handlers); the solver output is in solver_output"}
 		}
 	}
+	fpkg := fn.Pkg
+	if fpkg == nil && fn.Origin() != nil {
+		fpkg = fn.Origin().Pkg
+	}
+	if fpkg == nil {
+		return &ReplayResult{Note: "function without package"}
+	}
 	// which parameters / results can be transported
 	type slot struct {
 		name string
@@ -190,7 +197,9 @@ func tryReplay(p *Prog, o *Obligation, dir string) *ReplayResult {
 	}
 	file := filepath.Join(dir, "replay_"+mangle(o.Name)+".smt2")
 	os.WriteFile(file, []byte(txt+gv.String()), 0o644)
-	defer os.Remove(file)
+	if os.Getenv("GOVC_KEEP") == "" {
+		defer os.Remove(file)
+	}
 	out, _ := exec.Command("z3-new", "-T:20", file).CombinedOutput()
 	lines := strings.Split(strings.TrimSpace(string(out)), "\n")
 	if len(lines) == 0 || strings.TrimSpace(lines[0]) != "sat" {
@@ -245,7 +254,7 @@ func tryReplay(p *Prog, o *Obligation, dir string) *ReplayResult {
 	var argExprs []string
 	qual := func(t types.Type) string {
 		return types.TypeString(t, func(pk *types.Package) string {
-			if pk == fn.Pkg.Pkg {
+			if pk == fpkg.Pkg {
 				return ""
 			}
 			return pk.Name()
@@ -412,16 +421,16 @@ func TestVerifReplayModel(t *testing.T) {
 	%s%s
 	%s
 }
-`, fn.Pkg.Pkg.Name(), o.Name, imp.String(), helpers, assign, call, strings.Join(prints, "\n\t"))
+`, fpkg.Pkg.Name(), o.Name, imp.String(), helpers, assign, call, strings.Join(prints, "\n\t"))
 	res.Test = test
-	pkgDir := filepath.Join(repoDir, strings.TrimPrefix(fn.Pkg.Pkg.Path(), modPath+"/"))
+	pkgDir := filepath.Join(repoDir, strings.TrimPrefix(fpkg.Pkg.Path(), modPath+"/"))
 	testFile := filepath.Join(dir, "replay_"+mangle(o.Name)+"_test.go")
 	os.WriteFile(testFile, []byte(test), 0o644)
 	ov := filepath.Join(dir, "replay_"+mangle(o.Name)+"_overlay.json")
 	ovb, _ := json.Marshal(map[string]any{"Replace": map[string]string{filepath.Join(pkgDir, "zz_verif_replay_model_test.go"): testFile}})
 	os.WriteFile(ov, ovb, 0o644)
 	defer os.Remove(ov)
-	cmd := exec.Command("go", "test", "-overlay", ov, "-vet=off", "-count=1", "-timeout", "60s", "-run", "^TestVerifReplayModel$", ".")
+	cmd := exec.Command("go", "test", "-overlay", ov, "-vet=off", "-count=1", "-v", "-timeout", "60s", "-run", "^TestVerifReplayModel$", ".")
 	cmd.Dir = pkgDir
 	cmd.Env = append(os.Environ(), "GOFLAGS=-mod=mod", "GOPROXY=off", "GOSUMDB=off", "GOTOOLCHAIN=local")
 	done := make(chan struct{})
